@@ -562,7 +562,7 @@ func Run(tier string, seed int64, workers int) int {
 	cov["samples"] = append(cov["samples"].([]any), res.samples...)
 	cov["real_components"] = []string{"internal/sourcemapx Filter/Hint/Identifier from /repo working tree", "gopherjs CLI built from /repo working tree (hint emission, whitespace removal, prelude offsetting)", "esbuild minifier", "prelude scheduler (resumption before the marker)"}
 	cov["stubbed_components"] = []string{"downstream writer (fault-injecting sink)", "Node event loop (simnode) for the stack-frame runs"}
-	ev.Assumptions = []string{"column units are bytes of the generated file; the property does not fix them and only line equality is asserted for stack frames", "virtual source names of augmented standard packages are resolved to the working-tree files they were made from"}
+	ev.Assumptions = []string{"generated columns are UTF-16 code units, the unit in which JavaScript engines report stack frames (with bytes, one non-ASCII name shifts every later frame of a minified package); for stack frames only the resolved file and line are asserted", "virtual source names of augmented standard packages are resolved to the working-tree files they were made from"}
 	ev.Violations += nv
 	ev.WallS = time.Since(start).Seconds()
 	if err := ev.Write(jbuild.VerifDir()); err != nil {
